@@ -228,6 +228,19 @@ def install():
         return pow(a, b, *m)
     _core._PATCH_REGISTRATIONS[operator.pow] = _pow
 
+    # 7. engine bug fix: contract lookup for a called closure whose free variable is still
+    # unassigned (pycel.lib.lookup.index.array_data / _C_) dies in inspect.getclosurevars with
+    # "ValueError: Cell is empty"; fall back to the function's globals.
+    from crosshair import fnutil as _fu
+    _ofg = _fu.fn_globals
+
+    def fn_globals(fn):
+        try:
+            return _ofg(fn)
+        except ValueError:
+            return getattr(fn, "__globals__", {})
+    _fu.fn_globals = fn_globals
+
     _FLOAT_DEFAULT = bl._PYTYPE_TO_WRAPPER_TYPE[float]
 
 
@@ -255,6 +268,7 @@ MODELS = [
     "int(symbolic float) routed to the proxy's __int__ (z3 ToInt)",
     "float as exact real, UNKNOWN cap of real-based floats lifted (obligations tagged float=real)",
     "operator.pow(symbolic base, concrete exponent not a non-negative int): complex for negative base/fractional exponent, ZeroDivisionError for 0**negative, OverflowError beyond DBL_MAX**(1/b), otherwise an unconstrained float",
+    "fix: crosshair.fnutil.fn_globals tolerates closures with unassigned free variables",
     "fix of SymbolicBoundedIntTuple._create_up_to (negative slice appended phantom characters)",
     "str.lower()/upper() of a symbolic code point < 128 as the 26-letter ASCII shift (others: CrossHair's Unicode model)",
 ]
